@@ -1,6 +1,7 @@
 import Driver.Proto
 import SimuVerif.Model.Pipeline
 import SimuVerif.Model.Tissue
+import SimuVerif.Model.PipelineR
 /-
   Model driver of C14 (assembled iteration of a single free cell): runs `Pipeline.cellIteration` at `Float`, i.e. the
   very definition the theorems of Properties/C14Pipeline.lean are about, from an initial state taken from the first
@@ -32,6 +33,18 @@ import SimuVerif.Model.Tissue
     O <iteration> <preOk of the state ∧ postOk of its successor 0|1>     (= `stepOk`; not printed for k = n)
     and when k % every = 0 or k = n the lines of `h_solver … tissue`: S, and per cell C P M T N V Q D F A
   then END (or `bad-op`).
+
+  Assembled iteration of a single free cell WITH remeshing (`PipelineR.cellIterationR`, Properties/C14Remesh.lean); the initial
+  state is the first snapshot of `h_solver … slots`:
+    runr <n> <every> <epithelial 0|1> <swap 0|1> <nt>
+         K maxP aem iso angf minVol growth divVol density dt damping lmin samplingPeriod      (13 doubles)
+         nt × (surface_tension bending_modulus)
+         <iteration> <file_number> time area volume target_volume pressure
+         N <nn> ; <used> x y z px py pz … | F <nf> ; 1 n1 n2 n3 type nx ny nz area (or ; 0) … | E <ne> ; n1 n2 f1 f2 … | FN … | FF …
+  answer: for k = 0 … n, when k % every = 0 or k = n the lines `S`, `J <file_number>`, `C`, `R <state in the format above>`, and
+  for k < n one line
+    D <iteration> <stepOkR 0|1> <refineLive 0|1> <meshOk of the refined mesh 0|1> <splits> <collapses> <rebased 0|1> <swaps>
+  (what the model does in that iteration); an exception of the refiner / of rebase ends the answer with `X <kind>`; then END.
 -/
 open Simu Simu.Forces Simu.Pipeline Driver
 
@@ -210,6 +223,134 @@ def simulate (out : IO.FS.Stream) (K : Tissue.Consts Float) (n every : Nat) (s0 
 
 end TissueDrv
 
+/-! ### single cell with remeshing -/
+namespace RemeshDrv
+open Simu.Remesh Simu.PipelineR TissueDrv
+
+def pOptNat : P (Option Nat) := do
+  let a ← tok
+  if a == "-" then pure none else
+  match a.toNat? with
+  | some x => pure (some x)
+  | none => failure
+
+def expect (w : String) : P Unit := do
+  if (← tok) == w then pure () else failure
+
+def pNode : P (Node Float) := do
+  expect ";"
+  let u ← pNat; let p ← pV; let m ← pV
+  pure ⟨p, m, u != 0⟩
+
+def pFaceSlot : P (Remesh.Face Float) := do
+  expect ";"
+  let u ← pNat
+  if u == 0 then pure ⟨0, 0, 0, 0, ⟨0, 0, 0⟩, 0, false⟩ else
+  let a ← pNat; let b ← pNat; let c ← pNat; let t ← pNat; let nrm ← pV; let ar ← pF
+  pure ⟨a, b, c, t, nrm, ar, true⟩
+
+def pEdge : P Edge := do
+  expect ";"
+  let a ← pNat; let b ← pNat; let f1 ← pOptNat; let f2 ← pOptNat
+  pure ⟨a, b, f1, f2⟩
+
+/-- natural numbers up to the next `|` (or the end of the request) -/
+partial def pNatsUntilBar (acc : List Nat) : P (List Nat) := do
+  let i ← get
+  let a ← read
+  if h : i < a.size then
+    if a[i] == "|" then pure acc.reverse else
+    match a[i].toNat? with
+    | some x => do set (i + 1); pNatsUntilBar (x :: acc)
+    | none => failure
+  else pure acc.reverse
+
+def pCellR : P (Remesh.Cell Float) := do
+  expect "N"; let nn ← pNat; let nodes ← pMany nn pNode
+  expect "|"; expect "F"; let nf ← pNat; let faces ← pMany nf pFaceSlot
+  expect "|"; expect "E"; let ne ← pNat; let edges ← pMany ne pEdge
+  expect "|"; expect "FN"; let fnq ← pNatsUntilBar []
+  expect "|"; expect "FF"; let ffq ← pNatsUntilBar []
+  -- the queues are vectors used as stacks: the head of the model list is back()
+  pure ⟨nodes, faces, edges.toList, fnq.reverse, ffq.reverse⟩
+
+def pRunR : P (ConstsR Float × Nat × Nat × StateR Float) := do
+  let n ← pNat; let every ← pNat; let epi ← pNat; let sw ← pNat; let nt ← pNat
+  if every == 0 then failure
+  let K ← pF; let maxP ← pF; let aem ← pF; let iso ← pF; let angf ← pF; let minVol ← pF; let growth ← pF
+  let divVol ← pF; let density ← pF; let dt ← pF; let damping ← pF; let lmin ← pF; let sp ← pF
+  let fts ← pMany nt (do let t ← pF; let b ← pF; pure (⟨t, b⟩ : FaceType Float))
+  let it ← pNat; let fileNo ← pNat; let time ← pF; let area ← pF; let vol ← pF; let tvol ← pF; let pr ← pF
+  let cell ← pCellR
+  let i ← get
+  if i ≠ (← read).size then failure
+  let base : Pipeline.Consts Float :=
+    { K := K, maxP := maxP, aem := aem, iso := iso, angf := angf, minVol := minVol, growth := growth, divVol := divVol,
+      density := density, dt := dt, damping := damping, lmin := lmin, ft := fts.toList, epithelial := epi != 0 }
+  pure ({ base := base, samplingPeriod := sp, swapOn := sw != 0, maxIter := 1000000 }, n, every,
+        { iter := it, time := time, fileNo := Int.ofNat fileNo, cell := cell, area := area, volume := vol, tvol := tvol, pressure := pr })
+
+def showOpt (o : Option Nat) : String := match o with | some x => toString x | none => "-"
+
+/-- the format of `cell_tester::dump_slots` (harness/h_solver.cpp) = `dump` of Driver/C01.lean -/
+def dumpCell (c : Remesh.Cell Float) : String :=
+  let ns := c.nodes.toList.map (fun n => s!"{if n.used then 1 else 0} {showV n.pos} {showV n.mom}")
+  let fs := c.faces.toList.map (fun f =>
+    if f.used then s!"1 {f.n1} {f.n2} {f.n3} {f.typ} {showV f.normal} {showF f.area}" else "0")
+  let es := c.edges.map (fun e => s!"{e.n1} {e.n2} {showOpt e.f1} {showOpt e.f2}")
+  let fr (l : List Nat) := " ".intercalate (l.reverse.map toString)
+  s!"N {ns.length} ; {" ; ".intercalate ns} | F {fs.length} ; {" ; ".intercalate fs} | E {es.length} ; {" ; ".intercalate es} | FN {fr c.freeNodes} | FF {fr c.freeFaces}"
+
+def showStateR (s : StateR Float) : List String :=
+  [s!"S {s.iter} {showF s.time} 1",
+   s!"J {s.fileNo}",
+   s!"C 0 0 0 {s.cell.nodes.size} {s.cell.faces.size} {showF s.area} {showF s.volume} {showF s.tvol} {showF s.pressure}",
+   "R " ++ dumpCell s.cell]
+
+def b01 (b : Bool) : Nat := if b then 1 else 0
+
+def simulate (out : IO.FS.Stream) (K : ConstsR Float) (n every : Nat) (s0 : StateR Float) : IO Unit := do
+  let fn := Fn.float
+  let fx := FX.float
+  let mut s := s0
+  let mut stop := false
+  for k in [0:n+1] do
+    if stop then break
+    if k % every == 0 || k == n then
+      for l in showStateR s do out.putStrLn l
+    if k < n then
+      let ok := stepOkR fn fx K s
+      let live := refineLiveR fn K s
+      let (rebased, log) : Bool × List (Bool × Nat × Nat × Float) :=
+        match saveMesh fn K s with
+        | .ok s1 => (s1.fileNo != s.fileNo, refineLog fn K (faceTypes K s1.cell))
+        | .error _ => (false, [])
+      let mOk := match meshStage fn K s with | .ok s1 => meshOk s1.cell | .error _ => false
+      let ns := (log.filter (fun e => e.1)).length
+      -- executed swaps of the swap pass: every swap rewrites two face slots
+      let swaps : Nat :=
+        if K.swapOn then
+          match saveMesh fn K s with
+          | .ok s1 =>
+            let c0 := faceTypes K s1.cell
+            match removeElongated fn (Gen.refineConsts fn) c0 with
+            | .ok c1 => ((List.range c0.faces.size).filter (fun i =>
+                match c0.faces[i]?, c1.faces[i]? with
+                | some f, some g => f.n1 != g.n1 || f.n2 != g.n2 || f.n3 != g.n3
+                | _, _ => false)).length / 2
+            | .error _ => 0
+          | .error _ => 0
+        else 0
+      out.putStrLn s!"D {s.iter} {b01 ok} {b01 live} {b01 mOk} {ns} {log.length - ns} {b01 rebased} {swaps}"
+      match cellIterationR fn fx K s with
+      | .ok s' => s := s'
+      | .error e =>
+        out.putStrLn s!"X {e.name}"
+        stop := true
+  out.putStrLn "END"
+
+end RemeshDrv
+
 partial def loop (h : IO.FS.Stream) (out : IO.FS.Stream) : IO Unit := do
   let line ← h.getLine
   if line.isEmpty then return ()
@@ -217,6 +358,10 @@ partial def loop (h : IO.FS.Stream) (out : IO.FS.Stream) : IO Unit := do
   | "run" :: args =>
     match parseRun args with
     | some (c, n, every, s) => simulate out c n every s
+    | none => out.putStrLn "bad-op"
+  | "runr" :: args =>
+    match (RemeshDrv.pRunR.run 0).run args.toArray with
+    | some ((K, n, every, s), _) => RemeshDrv.simulate out K n every s
     | none => out.putStrLn "bad-op"
   | "tissue" :: args =>
     match (TissueDrv.pTissue.run 0).run args.toArray with
